@@ -1421,4 +1421,30 @@ theorem FD.hash_of_cacheOk (s : FD) (h : s.CacheOk) : s.hash.2 = hashOf s.items 
   unfold FD.hash
   rcases h with h | h <;> simp [h]
 
+/-! hashing in an arbitrary interpreter environment -/
+
+theorem hashOfIn_eq_of_dictEq (ρ : Nat → Nat) (a b : Dict Nat FVal) (ha : NodupKeys a) (hb : NodupKeys b)
+    (h : dictEq a b = true) : hashOfIn ρ a = hashOfIn ρ b := by
+  have hp := dictEq_perm a b ha hb h
+  unfold hashOfIn
+  rw [hp.all_eq, canon_perm _ _ (hp.map _)]
+
+theorem FD.rebuild_cache (s : FD) : s.rebuild.cache = none := rfl
+
+theorem FD.hashIn_fresh (ρ : Nat → Nat) (s : FD) (h : s.cache = none) : (s.hashIn ρ).2 = hashOfIn ρ s.items := by
+  unfold FD.hashIn; rw [h]
+
+theorem FD.hashIn_idem (ρ : Nat → Nat) (s : FD) : ((s.hashIn ρ).1.hashIn ρ).1 = (s.hashIn ρ).1 := by
+  unfold FD.hashIn
+  cases hc : s.cache <;> simp [hc]
+
+theorem FD.ofPairs_items_of_nodup (d : Dict Nat FVal) (h : NodupKeys d) : (FD.ofPairs d).items = d := by
+  have := putAll_of_nodup ([] : Dict Nat FVal) d (by simpa using h)
+  simpa [FD.ofPairs] using this
+
+theorem FD.rebuild_nodup (s : FD) : NodupKeys s.rebuild.items := FD.ofPairs_nodup _
+
+theorem FD.hashIn_items (ρ : Nat → Nat) (s : FD) : (s.hashIn ρ).1.items = s.items := by
+  unfold FD.hashIn; split <;> rfl
+
 end C17
